@@ -227,7 +227,7 @@ func runCase(c *Case) (*vf.Failure, verdict) {
 	return f, v
 }
 
-const rule = "Case = sequence of LockShared/LockExclusive/LockUpgrade/release-all(Commit or Abort via TransactionManager) requests on a fresh LockManager(STRICT, SS2PL), compared op by op with an abstract lock table (grant <=> compatible; re-requests succeed; denied requests change nothing; locks vanish only at release-all), plus fresh-transaction probes of every row at the end. Sequences requesting an upgrade without holding S are skipped (caller precondition). Non-trivial = the sequence contains a request on a row on which another transaction holds a lock."
+const rule = "Case = sequence of LockShared/LockExclusive/LockUpgrade/release-all(Commit or Abort via TransactionManager) requests on a fresh LockManager(STRICT, SS2PL), compared op by op with an abstract lock table (grant <=> compatible; re-requests succeed; denied requests change nothing; locks vanish only at release-all), plus fresh-transaction probes of every row at the end. A fifth of the sequences run on 18-40 rows and start with one transaction share-locking 10-40 rows in a row with one exclusive lock (direct or by upgrade) taken in between. Sequences requesting an upgrade without holding S are skipped (caller precondition). Non-trivial = the sequence contains a request on a row on which another transaction holds a lock."
 
 var assumptions = []string{
 	"LockUpgrade is only called while the transaction holds S on the row (table_page.go); a finished transaction object is not reused",
@@ -343,7 +343,32 @@ func TestExhaustive(t *testing.T) {
 func genCase(t *rapid.T) *Case {
 	c := &Case{NTxn: rapid.IntRange(2, 6).Draw(t, "ntxn"), NRow: rapid.IntRange(1, 5).Draw(t, "nrow")}
 	n := rapid.IntRange(1, 60).Draw(t, "len")
+	wide := rapid.IntRange(0, 4).Draw(t, "wide") == 0
+	if wide {
+		c.NRow = rapid.IntRange(18, 40).Draw(t, "widerows") // transactions that hold dozens of locks at a time (a scan's worth)
+	}
 	m := newModel(c.NRow)
+	if wide {
+		// one transaction share-locks 10-c.NRow rows in a row, taking one exclusive lock (on a row of its own or directly) somewhere in between
+		wt := rapid.IntRange(0, c.NTxn-1).Draw(t, "widetxn")
+		ns := rapid.IntRange(10, c.NRow).Draw(t, "wideshared")
+		xat := rapid.IntRange(0, ns).Draw(t, "xat")
+		xrow := rapid.IntRange(0, c.NRow-1).Draw(t, "xrow")
+		for r := 0; r <= ns; r++ {
+			if r == xat {
+				k := kX
+				if m.holdsS(wt, xrow) {
+					k = kU
+				}
+				m.request(k, wt, xrow)
+				c.Ops = append(c.Ops, Op{K: k, T: wt, R: xrow})
+			}
+			if r < ns {
+				m.request(kS, wt, r)
+				c.Ops = append(c.Ops, Op{K: kS, T: wt, R: r})
+			}
+		}
+	}
 	for i := 0; i < n; i++ {
 		op := Op{T: rapid.IntRange(0, c.NTxn-1).Draw(t, "t")}
 		k := rapid.SampledFrom([]int{kS, kS, kS, kX, kX, kU, kU, kR}).Draw(t, "k")
